@@ -100,6 +100,18 @@ func Run(r *core.Run) {
 		}
 		cases = append(cases, cs...)
 	}
+	// crafted relations: the deviator must be the last mover of its round in FIFO order (highest index
+	// of its committee) for "minus the sum of the others"
+	for _, cp := range []struct {
+		scn string
+		dev int
+	}{{"eddsa-keygen", 2}, {"eddsa-signing", 2}, {"eddsa-resharing", 1}, {"ecdsa-signing", 1}} {
+		cases = append(cases, fault.EnumerateCraftedCases(cp.scn, cp.dev)...)
+	}
+	if full {
+		cases = append(cases, fault.EnumerateCraftedCases("ecdsa-keygen", 1)...)
+		cases = append(cases, fault.EnumerateCraftedCases("ecdsa-resharing", 1)...)
+	}
 	for i := range cases {
 		cases[i].ID = i
 	}
